@@ -172,7 +172,7 @@ fn acts_sx(model: &ActorModel<A, HistCfg, Hist>, st: &St) -> (Vec<(Vec<u64>, Act
 /// (ii) all maximal action sequences of a small send-only system
 fn scenario(out: &mut Out, r: &mut Rng, kind: NetKind, lossy: bool, depth: usize, cap: usize, sample: bool) {
     let p = GenParams { actors: (2, 3), states: (1, 2), msgs: 2, max_cmds: 2, density: 35, use_timers: false, use_random: false,
-        ghost_dst: true, max_crashes: (0, 0), ..Default::default() };
+        ghost_dst: true, max_crashes: (0, 1), ..Default::default() };
     let mut spec = gen_sys(r, &p);
     spec.kind = kind; spec.lossy = lossy; spec.last = None;
     spec.hist = HistCfg { in_mode: 0, out_mode: 0 };
